@@ -314,7 +314,10 @@ class SymArray:
             raise TypeError("only length-1 arrays can be converted to Python scalars")
         return int(self.vals.ravel()[0])
 
-    __index__ = __int__
+    def __index__(self):
+        if self.ndim != 0:
+            raise TypeError("only integer scalar arrays can be converted to a scalar index")
+        return int(self.vals[()])
 
     def __float__(self):
         return float(self.vals.ravel()[0])
